@@ -398,7 +398,7 @@ type methodInfo = lockstep.MethodInfo
 func surface() []methodInfo { return lockstep.Surface() }
 
 func argFor(rng *rand.Rand, typ string, mode int) Arg {
-	strs := []string{"", "x", "1356:chainA:svc1", "1356:chainA:svc1-1356:chainB:svc2-1", "0x0000000000000000000000000000000000000001", "approve", "chainA", "::", "a:b", "{}", "[]", "rep:70000:ab", "%s%n", "\u0000"}
+	strs := []string{"", "x", "1356:chainA:svc1", "1356:chainA:svc1-1356:chainB:svc2-1", "0x0000000000000000000000000000000000000001", "0xabcd", "0x00", "approve", "chainA", "::", "a:b", "{}", "[]", "rep:70000:ab", "%s%n", "\u0000"}
 	switch typ {
 	case "string":
 		return Arg{"string", strs[rng.Intn(len(strs))]}
